@@ -9,6 +9,8 @@ for m in sorted(glob.glob(os.path.join(HERE, 'seeded', '*', 'meta.json'))):
     c = d['confirmed']
     conf = 'yes' if all(c.values()) else 'NO: %r' % c
     checks = '; '.join('%s %s' % (r['check'], r['verdict']) for r in d['our_checks'])
+    if d.get('strengthened'):
+        checks += ' -> after strengthening: ' + '; '.join('%s %s' % (r['check'], r['verdict']) for r in d.get('our_checks_after_strengthening', [])) + ' (' + d['strengthened'] + ')'
     rows.append((d['id'], d['property'], conf, checks, d.get('summary', '')))
 out = ['# Seeded changes', '',
        'Each directory holds a change to jameshanlon/hex-processor written by an independent sub-agent that was given only the text of one property',
